@@ -7,9 +7,11 @@
 //! (a JSON map cell -> hex value) the listed advice / instance cells of the real `MockProver` are
 //! overwritten (hook H2) and the verdict of the real `MockProver::verify()` is printed instead.
 
+mod biguint;
 mod dump;
 mod edwards;
 mod foreign;
+mod foreign_ecc;
 mod keycmp;
 mod native;
 mod poseidon;
@@ -179,6 +181,26 @@ fn main() {
                 }
             }
         }
+        "fecc" => {
+            macro_rules! go {
+                ($C:ty) => {{
+                    let io = native::IoLog::default();
+                    let circuit = foreign_ecc::FEccCircuit::<$C> { spec: spec.clone(), io: io.clone(), _c: std::marker::PhantomData };
+                    let _ = MockProver::<F>::run(k, &circuit, vec![vec![], vec![]]).expect("synthesis (pass 1)");
+                    let rec: Vec<(bool, F)> = io.0.borrow().clone();
+                    let pi: Vec<F> = rec.iter().map(|x| x.1).collect();
+                    let prover = MockProver::<F>::run(k, &circuit, vec![vec![], pi]).expect("synthesis (pass 2)");
+                    let kv = if want_keygen() { keycmp::keygen_view(k, &circuit).unwrap_or_else(|e| json!({"error": format!("{e:?}")})) } else { J::Null };
+                    finish(prover, rec, replay, foreign_ecc::extra::<$C>(&spec), kv);
+                }};
+            }
+            match spec.params.get("curve").map(|s| s.as_str()).unwrap_or("k256") {
+                "k256" => go!(foreign_ecc::K256),
+                "bls" => go!(foreign_ecc::BlsG1),
+                c => panic!("unknown emulated curve {c}"),
+            }
+        }
+        "biguint" => biguint::run_family(&spec, k, replay),
         _ => panic!("unknown family {family}"),
     }
 }
